@@ -143,6 +143,7 @@ func loadKV(disk *simkv.Disk, name string, gd *model.GraphData) (gdbi.GraphDB, g
 type travOpts struct {
 	CancelAfter int // cancel the request context after this many rows (-1: never)
 	StopReading bool // after cancelling, the client stops reading (a client that went away)
+	WriteAfter  int  // > 0: after this many rows the reading client issues a write call on the same graph (a delete of an absent vertex: exclusive on whatever lock deletes take, no change of state), then goes on reading
 	Backend     func(g gdbi.GraphInterface) gdbi.GraphInterface // optional decorator
 	Compile     func(g gdbi.GraphInterface, stmts []*gripql.GraphStatement) (gdbi.Pipeline, error)
 }
@@ -210,6 +211,10 @@ func runTraversal(x *Exec, cfg simrt.Config, gd *model.GraphData, stmts []*gripq
 				}
 				tr.Rows = append(tr.Rows, CanonRow(row))
 				n++
+				if o.WriteAfter > 0 && n == o.WriteAfter {
+					simrt.Probe("reading client issued a write mid-stream")
+					g.DelVertex("no-such-vertex-c07")
+				}
 				if o.CancelAfter >= 0 && n == o.CancelAfter {
 					simrt.Probe("client cancelled mid-stream")
 					cancel()
